@@ -1,0 +1,41 @@
+//go:build verif
+
+package candidates
+
+import (
+	"math/big"
+
+	"github.com/MinterTeam/minter-go-node/coreV2/types"
+)
+
+// VerifStake is a copy of a stake or pending update.
+type VerifStake struct {
+	Owner    types.Address
+	Coin     types.CoinID
+	Value    *big.Int
+	BipValue *big.Int
+}
+
+// VerifUpdates returns copies of the pending updates of a candidate.
+func (c *Candidates) VerifUpdates(pubkey types.Pubkey) []VerifStake {
+	candidate := c.GetCandidate(pubkey)
+	if candidate == nil {
+		return nil
+	}
+	candidate.lock.RLock()
+	defer candidate.lock.RUnlock()
+	res := make([]VerifStake, 0, len(candidate.updates))
+	for _, u := range candidate.updates {
+		res = append(res, VerifStake{Owner: u.Owner, Coin: u.Coin, Value: new(big.Int).Set(u.Value), BipValue: new(big.Int).Set(u.BipValue)})
+	}
+	return res
+}
+
+// VerifStakes returns copies of the stakes of a candidate.
+func (c *Candidates) VerifStakes(pubkey types.Pubkey) []VerifStake {
+	var res []VerifStake
+	for _, s := range c.GetStakes(pubkey) {
+		res = append(res, VerifStake{Owner: s.Owner, Coin: s.Coin, Value: new(big.Int).Set(s.Value), BipValue: new(big.Int).Set(s.BipValue)})
+	}
+	return res
+}
